@@ -16,6 +16,13 @@ import Wbxml.Lemmas.ParserSafeMain
 namespace Wbxml.Lemmas.ParserSafe
 open Wbxml Wbxml.Model
 
+-- The error-code constants are literals (none of them is 0 = `WBXML_OK`).
+attribute [local simp] E.badDatetime E.internal E.langTableUndefined E.tagTableUndefined E.b64Enc
+  E.wvDatetimeFormat E.noCharsetConv E.charsetStrLen E.charsetNotFound E.attrTableUndefined
+  E.attrValueTableUndefined E.badOpaqueLength E.emptyWbxml E.endOfBuffer E.extValueTableUndefined
+  E.invalidStrtblIndex E.nullStringTable E.stringExpected E.strtblLength E.unknownAttrValue
+  E.unknownExtensionToken E.unknownPublicId E.unvalidMbUint32 E.wvIntegerOverflow E.invalidUnicode
+
 /-- The state with `x` appended to the remaining input. -/
 def ext (s : PState) (x : Bytes) : PState := { s with rest := s.rest ++ x }
 
